@@ -257,6 +257,11 @@ func (p *Prop) RunCase(sc any) *Violation {
 		if len(f.InconclusiveWhy) < 5 {
 			f.InconclusiveWhy = append(f.InconclusiveWhy, c.Inconclusive)
 		}
+		if f.Inconclusive >= 25 && f.Inconclusive*4 > f.Evaluations {
+			// most cases cannot be decided (a wedged node, an overloaded machine): stop instead of burning the
+			// job's whole wall-clock limit ten seconds at a time; the driver reports the job as inconclusive
+			TooManyInconclusive = true
+		}
 		return nil
 	}
 	if c.nontrivial {
@@ -295,6 +300,35 @@ func (p *Prop) RunCase(sc any) *Violation {
 	}
 	if !replaced {
 		f.Violations = append(f.Violations, rec)
+	}
+	return v
+}
+
+// TooManyInconclusive is set when a run should be abandoned as undecidable (see RunCase).
+var TooManyInconclusive bool
+
+// Confirm re-executes a scenario whose first execution produced a violation of one of the given
+// keys, up to n-1 more times, and keeps the violation only if every execution produces one. It is
+// for verdicts that an *independent, already recorded* schedule-dependent defect can produce now and
+// then (a lookup that ends early because of the stale stall report, known finding F10): a genuine
+// violation of this property is a function of the scenario and shows up every time.
+func Confirm(v *Violation, n int, keys []string, again func() *Violation) *Violation {
+	if v == nil {
+		return nil
+	}
+	match := false
+	for _, k := range keys {
+		if v.Key == k {
+			match = true
+		}
+	}
+	if !match {
+		return v
+	}
+	for i := 1; i < n; i++ {
+		if w := again(); w == nil {
+			return nil
+		}
 	}
 	return v
 }
